@@ -83,6 +83,21 @@ Member(rows, r) == \E i \in 1..Len(rows) : rows[i] = r
 (* evaluation.  ctx = [db |-> [dbname |-> [table |-> [cols, rows]]], res |-> step results (PlanExec), defdb |-> name] *)
 RECURSIVE EvalE(_, _, _, _, _), EvalQ(_, _), EvalFrom(_, _), EvalSelect(_, _, _), Agg(_, _, _, _)
 
+\* correlated sub-queries: ctx.outer is the stack of enclosing (header, row) frames, innermost first.  A column that
+\* matches nothing in the current scope is looked up outwards; an ambiguous match in any scope is an error.
+RECURSIVE LookupOuter(_, _, _)
+LookupOuter(frames, t, c) ==
+  IF frames = <<>> THEN ERR
+  ELSE LET f == Head(frames) m == Matches(f.h, t, c) IN
+       IF Cardinality(m) = 1 THEN f.row[CHOOSE i \in m : TRUE]
+       ELSE IF Cardinality(m) = 0 THEN LookupOuter(Tail(frames), t, c) ELSE ERR
+OuterOf(ctx) == IF "outer" \in DOMAIN ctx THEN ctx.outer ELSE <<>>
+LookupC(h, row, t, c, ctx) ==
+  LET m == Matches(h, t, c) IN
+  IF Cardinality(m) = 1 THEN row[CHOOSE i \in m : TRUE]
+  ELSE IF Cardinality(m) = 0 THEN LookupOuter(OuterOf(ctx), t, c) ELSE ERR
+Push(ctx, h, row) == [x \in DOMAIN ctx \cup {"outer"} |-> IF x = "outer" THEN <<[h |-> h, row |-> row]>> \o OuterOf(ctx) ELSE ctx[x]]
+
 NoGrp == [on |-> FALSE, rows |-> <<>>]
 Grp(rows) == [on |-> TRUE, rows |-> rows]
 FirstCol(rel) == [i \in 1..Len(rel.rows) |-> rel.rows[i][1]]
@@ -98,7 +113,7 @@ AnyRel(S) == CHOOSE r \in S : TRUE
 
 \* grp = NoGrp outside aggregation, else [on |-> TRUE, rows |-> the rows of the current group]
 EvalE(x, h, row, grp, ctx) ==
-  CASE x.e = "col" -> Lookup(h, row, x.t, x.c)
+  CASE x.e = "col" -> LookupC(h, row, x.t, x.c, ctx)
     [] x.e = "const" -> x.v
     [] x.e = "bin" -> BinVal(x.op, EvalE(x.a, h, row, grp, ctx), EvalE(x.b, h, row, grp, ctx))
     [] x.e = "un" -> (LET a == EvalE(x.a, h, row, grp, ctx) IN
@@ -112,10 +127,10 @@ EvalE(x, h, row, grp, ctx) ==
                       IN IF x.neg THEN Not3(v) ELSE v)
     [] x.e = "inparam" -> (LET v == In3(EvalE(x.a, h, row, grp, ctx), FirstCol(ctx.res[x.n + 1]))
                            IN IF x.neg THEN Not3(v) ELSE v)
-    [] x.e = "insub" -> (LET v == In3(EvalE(x.a, h, row, grp, ctx), FirstCol(AnyRel(EvalQ(x.q, ctx))))
+    [] x.e = "insub" -> (LET v == In3(EvalE(x.a, h, row, grp, ctx), FirstCol(AnyRel(EvalQ(x.q, Push(ctx, h, row)))))
                          IN IF x.neg THEN Not3(v) ELSE v)
-    [] x.e = "exists" -> (LET v == B(AnyRel(EvalQ(x.q, ctx)).rows # <<>>) IN IF x.neg THEN 1 - v ELSE v)
-    [] x.e = "scalar" -> (LET r == AnyRel(EvalQ(x.q, ctx)) IN IF r.rows = <<>> THEN NULL ELSE r.rows[1][1])
+    [] x.e = "exists" -> (LET v == B(AnyRel(EvalQ(x.q, Push(ctx, h, row))).rows # <<>>) IN IF x.neg THEN 1 - v ELSE v)
+    [] x.e = "scalar" -> (LET r == AnyRel(EvalQ(x.q, Push(ctx, h, row))) IN IF r.rows = <<>> THEN NULL ELSE r.rows[1][1])
     [] x.e = "case" -> (LET hit == {i \in 1..Len(x.rules) :
                                      Truth(IF x.arg.e = "none" THEN EvalE(x.rules[i][1], h, row, grp, ctx)
                                            ELSE BinVal("=", EvalE(x.arg, h, row, grp, ctx), EvalE(x.rules[i][1], h, row, grp, ctx))) = 1}
